@@ -71,6 +71,7 @@ def batches(ctx):
                 return False, f"{k}: {why}"
         return True, "all returned reconciliations are valid"
     b.oracle = oracle_plain
+    b.eqb = "thl_eqb_weak"     # arbitrary costs: ANY need not be a member of ALL outside the coherent region
     yield b
 
     oc = [dict(c02.rand_case(rng, 4, 3, 3), costs=any_costs()) for _ in range(350 if quick else 3000)]
@@ -88,6 +89,7 @@ def batches(ctx):
                     return False, f"{k}: {why}"
         return True, "all returned labelled solutions are valid"
     b.oracle = oracle_ord
+    b.eqb = "spfs_eqb_weak"
     yield b
 
     uc = [dict(c03.rand_case(rng, 6, 3, 4, chain=0.4), costs=any_costs()) for _ in range(3000 if quick else 20000)]
@@ -103,6 +105,7 @@ def batches(ctx):
                     return False, f"{k}: {why}"
         return True, "all returned labelled solutions are valid"
     b.oracle = oracle_un
+    b.eqb = "uspfs_eqb_weak"
     yield b
 
 
